@@ -64,6 +64,10 @@ var crossFeats = []crossFeat{
 	{"shadow", []string{"C03"}, `{ v := n; { v := v + 1; YIELD(v) }; YIELD(v) }`},
 	{"switchInit", []string{"C03", "C01"}, `switch m := n + 1; m { case 1: YIELD(m); default: YIELD(-m) }`},
 	{"ifInit", []string{"C03", "C01"}, `if m := n * 2; m > 2 { YIELD(m) } else { YIELD(-m) }`},
+	{"forMultiInit", []string{"C03", "C01"}, `{ i := n + 7; for i, j := 0, 10; i < 2; i, j = i+1, j-1 { YIELD(i*100 + j) }; YIELD(i) }`},
+	{"switchMultiInit", []string{"C03", "C01"}, `{ a := n + 7; switch a, b := 1, 2; { case a < b: YIELD(a + b); default: YIELD(-a) }; YIELD(a) }`},
+	{"ifMultiInit", []string{"C03", "C01"}, `{ a := n + 7; if a, b := 1, n; a < b { YIELD(a + b) } else { YIELD(a - b) }; YIELD(a) }`},
+	{"forInitShadowsParam", []string{"C03"}, `{ for n := 0; n < 2; n++ { YIELD(n) }; YIELD(n) }`},
 	{"forPostYield", []string{"C01"}, `for i := 0; i < 2; YIELD(100 + i) { i++ }`},
 	{"forInitYield", []string{"C01"}, `{ i := 0; for YIELD(50); i < 2; i++ { YIELD(i) } }`},
 	{"loopBrkCont", []string{"C01"}, `for i := 0; i < 4; i++ { if i == 1 { continue }; YIELD(i); if i == 2 { break } }`},
